@@ -99,12 +99,19 @@ def fields(manifest):
         body = rewrite_memory(rewrite(body, ENUM_RULES, "Processor::" + hname, manifest), c)
         leftover_check(body, hname)
         helpers.append("static %s %s(%s) %s\n" % (SCALAR_TYPES[ret], hname, ", ".join(ps) or "void", body))
-    decls = [d.strip() for d in region.split(";") if d.strip()]
+    decls0 = [" ".join(d.split()) for d in region.split(";") if d.strip()]
+    decls = []
+    for d in decls0:
+        # `uint32_t a, b` / `unsigned a = 0, b = 0`: one declaration per declarator (scalar types only)
+        md = re.fullmatch(r"([\w:]+) (\w+(?: = [\w~ ]+)?(?:, \w+(?: = [\w~ ]+)?)+)", d)
+        if md and md.group(1) in SCALAR_TYPES:
+            decls += ["%s %s" % (md.group(1), x.strip()) for x in md.group(2).split(",")]
+        else:
+            decls.append(d)
     out = []
     names = {}
     defaults = {}
     for d in decls:
-        d = " ".join(d.split())
         m = re.fullmatch(r"static const size_t MEMORY_SIZE_WORDS = hex::MAX_MEMORY_SIZE_WORDS", d)
         if m:
             out.append("#define MEMORY_SIZE_WORDS MAX_MEMORY_SIZE_WORDS")
